@@ -48,8 +48,8 @@ func NewStats() *Stats {
 	return &Stats{Sigs: map[string]int{}, Counters: map[string]int{}, Notes: map[string]string{}}
 }
 
-func (st *Stats) Count(k string)        { st.Counters[k]++ }
-func (st *Stats) Add(k string, n int)   { st.Counters[k] += n }
+func (st *Stats) Count(k string)      { st.Counters[k]++ }
+func (st *Stats) Add(k string, n int) { st.Counters[k] += n }
 func (st *Stats) Sig(s string) {
 	if s != "" {
 		st.Sigs[s]++
@@ -157,7 +157,7 @@ func RunHistory(s *Sim, p *Profile, mons []Monitor, stats *Stats, index int) {
 		if len(vs) > 0 {
 			for _, v := range vs {
 				v.Step = st.I
-				stats.Violations = append(stats.Violations, VioRec{Violation: *v, Index: index, Cfg: s.Cfg.String(), History: append([]string(nil), s.Hist...), Detail: detail(st)})
+				stats.Violations = append(stats.Violations, VioRec{Violation: *v, Index: index, Cfg: s.Cfg.String(), History: append([]string(nil), s.Hist...), Detail: Detail(st)})
 			}
 			return
 		}
@@ -171,7 +171,7 @@ func RunHistory(s *Sim, p *Profile, mons []Monitor, stats *Stats, index int) {
 	}
 }
 
-func detail(st *Step) string {
+func Detail(st *Step) string {
 	r := st.Rec
 	return fmt.Sprintf("%s %s body=%q status=%d loc=%q sessIn=%v sessOut=%v err=%q panic=%q calls=%v sesswrites=%v diff=%v",
 		r.Method, r.Target, trunc(r.Body, 300), r.Status, r.Location, r.SessIn, r.SessOut, trunc(r.HandlerErr, 200), trunc(r.Panic, 200), r.Calls, r.SessWrites, r.Diff())
